@@ -165,7 +165,7 @@ theorem opAppend_frame {fuel : Nat} {h h2 : Heap H} {self : Id} {k : String} {it
     simp only [Option.some.injEq] at he; subst he
     have f1 := inval_frame fuel h (some self) h1 hinv
     refine (f1.mono (fun m hm => .inl hm)).trans ?_
-    unfold appendCore
+    rw [appendCore_eq]; unfold appendCoreSpec
     cases it with
     | leaf s => exact same_upd _ _ (Or.inl (OnChain.here self))
     | node c => exact (same_upd _ _ (Or.inl (OnChain.here self))).trans (same_upd _ _ (Or.inr rfl))
@@ -221,113 +221,118 @@ theorem onChain_in_region {h : Heap H} {R : Id → Prop} (hu : UpClosed h R) {cu
     intro p hp
     exact hu n p (hn n rfl) hp
 
+/-- a region: closed under parent pointers and under stored children -/
+structure Region (h : Heap H) (R : Id → Prop) : Prop where
+  up : UpClosed h R
+  down : ∀ p k j c, R p → Stored h p k j c → R c
+
 /-! ### `hash` / `==` write only `_hash` fields: `inv_fill`, `inv_opEq` give `HashOnly` -/
 
-/-! ### `copy` writes only fresh cells -/
+/-! ### edits made inside a region stay inside it, and keep it a region -/
 
-/-- what a recursive copy call guarantees: cells below `nx` are untouched, and it allocates upwards -/
-def CopyFrame (cp : Heap H → Nat → Id → Option (Heap H × Nat × Id)) : Prop :=
-  ∀ h nx n h' nx' c, cp h nx n = some (h', nx', c) → (∀ m, m < nx → h' m = h m) ∧ nx ≤ c ∧ nx' > c
+theorem opSet_region_frame {fuel : Nat} {h h' : Heap H} {R : Id → Prop} (hR : Region h R) {self : Id} {k : String}
+    {v : Value} {idx : Option Nat} {ow : Bool} (hs : R self) (hv : ∀ c, Item.node c ∈ itemOfValue v → R c)
+    (he : opSet fuel h self k v idx ow = some h') : ∀ m, ¬ R m → h' m = h m := by
+  intro m hm
+  apply opSet_frame he m
+  rintro (hc | hf)
+  · exact hm (onChain_in_region hR.up hc (fun n hn => by cases hn; exact hs))
+  · rcases hf with e | e | ⟨j, hst⟩
+    · exact hm (e ▸ hs)
+    · exact hm (hv m e)
+    · exact hm (hR.down _ _ _ _ hs hst)
 
-theorem copyItems_frame {cp : Heap H → Nat → Id → Option (Heap H × Nat × Id)} (hcp : CopyFrame cp) (me : Id)
-    (k : String) : ∀ (items : List Item) (i : Nat) (h : Heap H) (nx : Nat) (h' : Heap H) (nx' : Nat)
-      (items' : List Item), copyItems cp me k i h nx items = some (h', nx', items') →
-      (∀ m, m < nx → h' m = h m) ∧ nx ≤ nx' ∧ ∀ c, Item.node c ∈ items' → nx ≤ c ∧ nx' > c
-  | [], i, h, nx, h', nx', items', he => by
-    simp only [copyItems, Option.some.injEq, Prod.mk.injEq] at he
-    obtain ⟨e1, e2, e3⟩ := he; subst e1; subst e2; subst e3
-    exact ⟨fun _ _ => rfl, Nat.le_refl _, fun c hc => by cases hc⟩
-  | .leaf s :: r, i, h, nx, h', nx', items', he => by
-    simp only [copyItems] at he
-    split at he
-    · next h1 n1 r1 hr =>
-      simp only [Option.some.injEq, Prod.mk.injEq] at he
-      obtain ⟨e1, e2, e3⟩ := he; subst e1; subst e2; subst e3
-      obtain ⟨a, b, c⟩ := copyItems_frame hcp me k r (i + 1) h nx _ _ _ hr
-      refine ⟨a, b, ?_⟩
-      intro c' hc'
-      rcases List.mem_cons.mp hc' with e | e
-      · cases e
-      · exact c c' e
-    · cases he
-  | .node c0 :: r, i, h, nx, h', nx', items', he => by
-    simp only [copyItems] at he
-    split at he
-    · cases he
-    · next h1 nx1 c' hc =>
-      obtain ⟨f1, g1, g2⟩ := hcp _ _ _ _ _ _ hc
-      split at he
-      · next h2 n2 r2 hr =>
-        simp only [Option.some.injEq, Prod.mk.injEq] at he
-        obtain ⟨e1, e2, e3⟩ := he; subst e1; subst e2; subst e3
-        obtain ⟨a, b, c⟩ := copyItems_frame hcp me k r (i + 1) _ nx1 _ _ _ hr
-        refine ⟨?_, by omega, ?_⟩
-        · intro m hm
-          rw [a m (by omega), setPtr_other _ _ _ _ (Nat.ne_of_lt (by omega)), f1 m hm]
-        · intro c1 hc1
-          rcases List.mem_cons.mp hc1 with e | e
-          · cases e; omega
-          · have := c c1 e; omega
-      · cases he
+theorem spi_parent (self : Id) (k : String) : ∀ (L : List Item) (o : Nat) (h : Heap H) (m : Id),
+    (setParentItems self k o L h m).parent = (h m).parent ∨ (setParentItems self k o L h m).parent = some self
+  | [], _, _, _ => .inl rfl
+  | .leaf _ :: r, o, h, m => by simp only [setParentItems]; exact spi_parent self k r (o + 1) h m
+  | .node c :: r, o, h, m => by
+    simp only [setParentItems]
+    rcases spi_parent self k r (o + 1) (setPtr h c (some self) (some k) (some o)) m with e | e
+    · by_cases hmc : m = c
+      · subst hmc; right; rw [e]; simp [setPtr]
+      · left; rw [e, setPtr_other _ _ _ _ hmc]
+    · exact .inr e
 
-theorem copyArgs_frame {cp : Heap H → Nat → Id → Option (Heap H × Nat × Id)} (hcp : CopyFrame cp) (me : Id) :
-    ∀ (args : List (String × Arg)) (h : Heap H) (nx : Nat) (h' : Heap H) (nx' : Nat)
-      (args' : List (String × Arg)), copyArgs cp me h nx args = some (h', nx', args') →
-      (∀ m, m < nx → h' m = h m) ∧ nx ≤ nx'
-  | [], h, nx, h', nx', args', he => by
-    simp only [copyArgs, Option.some.injEq, Prod.mk.injEq] at he
-    obtain ⟨e1, e2, _⟩ := he; subst e1; subst e2
-    exact ⟨fun _ _ => rfl, Nat.le_refl _⟩
-  | (k, .leaf s) :: r, h, nx, h', nx', args', he => by
-    simp only [copyArgs] at he
+theorem setCore_parent {h h2 : Heap H} {self : Id} {k : String} {v : Value} {idx : Option Nat} {ow : Bool}
+    (he : setCore h self k v idx ow = some h2) (m : Id) :
+    (h2 m).parent = (h m).parent ∨ (h2 m).parent = some self := by
+  unfold setCore at he
+  cases idx with
+  | none =>
+    simp only at he
+    cases v with
+    | none => simp only [Option.some.injEq] at he; subst he; left; simp
+    | leaf s => simp only [Option.some.injEq] at he; subst he; left; simp
+    | node c =>
+      simp only [Option.some.injEq] at he; subst he
+      by_cases hmc : m = c
+      · subst hmc; right; simp [setPtr]
+      · left; rw [setPtr_other _ _ _ _ hmc]; simp
+    | list items =>
+      simp only [Option.some.injEq] at he; subst he
+      rcases spi_parent self k items 0 (setArgs h self (setKey k (.many items) (h self).args)) m with e | e
+      · left; rw [e]; simp
+      · exact .inr e
+  | some i =>
+    simp only at he
     split at he
-    · next h1 n1 r1 hr =>
-      simp only [Option.some.injEq, Prod.mk.injEq] at he
-      obtain ⟨e1, e2, _⟩ := he; subst e1; subst e2
-      exact copyArgs_frame hcp me r h nx _ _ _ hr
+    · simp only [Option.some.injEq] at he; subst he; exact .inl rfl
+    · split at he
+      · simp only [Option.some.injEq] at he; subst he; exact .inl rfl
+      · simp only [Option.some.injEq] at he; subst he; exact .inl rfl
+      · have general : ∀ l, (setParentItems self k 0 l (setArgs h self (setKey k (.many l) (h self).args)) m).parent =
+            (h m).parent ∨ (setParentItems self k 0 l (setArgs h self (setKey k (.many l) (h self).args)) m).parent =
+            some self := by
+          intro l
+          rcases spi_parent self k l 0 (setArgs h self (setKey k (.many l) (h self).args)) m with e | e
+          · left; rw [e]; simp
+          · exact .inr e
+        cases v with
+        | none =>
+          simp only at he
+          split at he
+          · next h' hdec =>
+            simp only [Option.some.injEq] at he; subst he
+            left; simp [(decr_fields _ _ _ hdec m).2.2.2.2.1]
+          · cases he
+        | leaf s => simp only [Option.some.injEq] at he; subst he; exact general _
+        | node c => simp only [Option.some.injEq] at he; subst he; exact general _
+        | list vs => simp only [Option.some.injEq] at he; subst he; exact general _
+    · rw [setOnScalar_eq he]; exact .inl rfl
     · cases he
-  | (k, .one c0) :: r, h, nx, h', nx', args', he => by
-    simp only [copyArgs] at he
-    split at he
-    · cases he
-    · next h1 nx1 c' hc =>
-      obtain ⟨f1, g1, g2⟩ := hcp _ _ _ _ _ _ hc
-      split at he
-      · next h2 n2 r2 hr =>
-        simp only [Option.some.injEq, Prod.mk.injEq] at he
-        obtain ⟨e1, e2, _⟩ := he; subst e1; subst e2
-        obtain ⟨a, b⟩ := copyArgs_frame hcp me r _ nx1 _ _ _ hr
-        refine ⟨?_, by omega⟩
-        intro m hm
-        rw [a m (by omega), setPtr_other _ _ _ _ (Nat.ne_of_lt (by omega)), f1 m hm]
-      · cases he
-  | (k, .many items) :: r, h, nx, h', nx', args', he => by
-    simp only [copyArgs] at he
-    split at he
-    · cases he
-    · next h1 nx1 items' hi =>
-      obtain ⟨f1, g1, _⟩ := copyItems_frame hcp me k items 0 h nx _ _ _ hi
-      split at he
-      · next h2 n2 r2 hr =>
-        simp only [Option.some.injEq, Prod.mk.injEq] at he
-        obtain ⟨e1, e2, _⟩ := he; subst e1; subst e2
-        obtain ⟨a, b⟩ := copyArgs_frame hcp me r _ nx1 _ _ _ hr
-        exact ⟨fun m hm => by rw [a m (by omega), f1 m hm], by omega⟩
-      · cases he
 
-theorem copyNode_frame : ∀ (fuel : Nat), CopyFrame (copyNode (H := H) fuel)
-  | 0 => by intro h nx n h' nx' c he; simp [copyNode] at he
-  | f + 1 => by
-    intro h nx n h' nx' c he
-    simp only [copyNode] at he
-    split at he
-    · cases he
-    · next h1 nx1 args' ha =>
-      simp only [Option.some.injEq, Prod.mk.injEq] at he
-      obtain ⟨e1, e2, e3⟩ := he; subst e1; subst e2; subst e3
-      obtain ⟨a, b⟩ := copyArgs_frame (copyNode_frame f) nx (h n).args h (nx + 1) _ _ _ ha
-      refine ⟨?_, Nat.le_refl _, by omega⟩
-      intro m hm
-      rw [upd_other _ _ (Nat.ne_of_lt (by omega)), a m (by omega)]
+/-- `self.set(k, v, index)` with `self` and the inserted nodes inside a region keeps it a region (and a dict a dict) -/
+theorem region_opSet {fuel : Nat} {h h2 : Heap H} {R : Id → Prop} (hR : Region h R) (hk : Keys h) {self : Id}
+    {k : String} {v : Value} {idx : Option Nat} (hs : R self) (hv : ∀ c, Item.node c ∈ itemOfValue v → R c)
+    (he : opSet fuel h self k v idx true = some h2) : Region h2 R ∧ Keys h2 := by
+  unfold opSet at he
+  split at he
+  · next h1 hinv =>
+    have ho := inval_hashOnly fuel h (some self) h1 hinv
+    have hk1 := keys_hashOnly ho hk
+    have hpar : ∀ m, (h1 m).parent = (h m).parent := by
+      intro m
+      have := (ho m).2.2.2
+      simp only [ptrs, Prod.mk.injEq] at this
+      exact this.1
+    refine ⟨⟨?_, ?_⟩, ?_⟩
+    · intro n' p hn hp
+      rcases setCore_parent he n' with e | e
+      · rw [e, hpar] at hp; exact hR.up n' p hn hp
+      · rw [e] at hp; cases hp; exact hs
+    · intro p k' j m hp hst
+      rcases setCore_shape hk1 he with ⟨e, _⟩ | ⟨new, hed, hnew⟩
+      · rw [e] at hst
+        exact hR.down p k' j m hp ((stored_hashOnly ho).mp hst)
+      · rcases stored_edit hed hst with ⟨e1, _, a, hn, ha⟩ | ⟨_, hs0⟩
+        · rcases hnew a j m hn ha with hin | ⟨i, j', _, _, hsj⟩
+          · exact hv m hin
+          · exact hR.down self k (some j') m hs ((stored_hashOnly ho).mp hsj)
+        · exact hR.down p k' j m hp ((stored_hashOnly ho).mp hs0)
+    · rcases setCore_shape hk1 he with ⟨e, _⟩ | ⟨new, hed, _⟩
+      · rw [e]; exact hk1
+      · exact keys_edit hed hk1
+  · cases he
 
 end SqlglotModel.Tree
